@@ -186,6 +186,45 @@ static void run(void) {
             vf_add("random.cells", nr);
         }
         vf_buf_free(d);
+        /* sparse-digit cells: at every resolution, under every pentagon base cell and six hexagon base cells, every cell
+         * with exactly one and exactly two non-zero digits (every position, every digit value). These are the cells on
+         * which run-skipping / word-at-a-time rewrites of the digit helpers (leading non-zero digit, isPentagon,
+         * isValidCell masks) go wrong: long zero runs before, between and after the digits. "Exactly twelve pentagons per
+         * resolution" is judged on them through isPentagon == reference. */
+        {
+            static const int hexbc[6] = {0, 15, 50, 62, 100, 121};
+            int bcs[18], nb = 0;
+            for (int bc = 0; bc < 122; bc++)
+                if (ref_is_pent_bc(bc)) bcs[nb++] = bc;
+            for (int i = 0; i < 6; i++) bcs[nb++] = hexbc[i];
+            int dg[15];
+            for (int b = 0; b < nb; b++)
+                for (int res = 1; res <= 15; res++)
+                    for (int p = 1; p <= res; p++)
+                        for (int q = p; q <= res; q++)
+                            for (int d1 = 1; d1 <= 6; d1++)
+                                for (int d2 = 1; d2 <= (q == p ? 1 : 6); d2++) {
+                                    if (!VF_MINE(idx++)) continue;
+                                    memset(dg, 0, sizeof dg);
+                                    dg[p - 1] = d1;
+                                    if (q != p) dg[q - 1] = d2;
+                                    H3Index h = vf_make_cell(res, bcs[b], dg);
+                                    if (!ref_is_valid_cell(h)) { /* leading 1 under a pentagon: must be rejected */
+                                        vf_add("sparse.deleted_subsequence_indexes", 1);
+                                        if (isValidCell(h)) {
+                                            char spec[64];
+                                            snprintf(spec, sizeof spec, "valid %016" PRIx64, h);
+                                            vf_violation_spec(spec, "predicate", "isValidCell", h, "", "isValidCell(%016" PRIx64 ")=1 reference=0", h);
+                                        }
+                                        continue;
+                                    }
+                                    vf_case("rt %016" PRIx64, h);
+                                    roundtrip(h);
+                                    perturb(h);
+                                    if ((idx & 7) == 0) vf_distinct(h);
+                                    vf_add("sparse.cells", 1);
+                                }
+        }
     } else {
         /* whole resolutions */
         int full = VF_T(5, 6), rtonly = VF_T(5, 7);
